@@ -16,7 +16,9 @@ RULE = ("partial valuations are passed as construction HISTORIES (start: empty/d
         "independent oracle on the underlying finite maps (==: same map; extends: inclusion of maps; hash: canonical encoding of the map, checked "
         "injective over all maps seen; conversions: round trips; cmp_size/cmp_structural/cmp_cardinality(_strict)/cmp_implies vs. Python on raw arrays "
         "and truth tables; cmp_cardinality also vs. the implementation's own exact_cardinality); order laws (reflexive, antisymmetric, transitive, "
-        "total; Equal <-> identical arrays for cmp_structural) on all pairs and triples of the pool. TryFrom<BddPartialValuation> depends on the "
+        "total; Equal <-> identical arrays for cmp_structural) on all pairs and triples of the pool. Total valuations (BddValuation): random histories "
+        "all_false/all_true/new then set/clear/flip_value/set_value/IndexMut over 0..300 variables incl. indices beyond the vector (panic), read "
+        "back with value()/Index/vector()/num_vars() against the model (Model/Alias.v val_run) and a Python list simulation. TryFrom<BddPartialValuation> depends on the "
         "stored length (a padded valuation is rejected): compared with the model exactly, Ok results checked against the map. "
         "non-trivial = some fixed variable in an operand (pairs: two different histories) / both Bdds >=3 nodes; distinct by sha256 of the step")
 
@@ -258,6 +260,17 @@ def programs(rng, tier):
         one = "v" + "".join("1" for _ in range(nv))
         P.add_prog([["a", "id", bdd_sx(a)], ["w", "of_valuation", one], ["a2", "named", "and_not", "$a", "$w"],
                     ["c1", "cmp_cardinality", "$a", "$a2"], ["c2", "cmp_cardinality_strict", "$a2", "$a"]])
+    # ---- total valuations: all_false / all_true / new followed by in-place mutators, then read back
+    for _ in range(400 if quick else 6000):
+        n = rng.choice([0, 1, 2, 3, 5, 8, 8, 17, 64, 300])
+        start = rng.choice([["AF", str(n)], ["AT", str(n)], ["N", "v" + "".join(rng.choice("01") for _ in range(n))]])
+        ops = []
+        for _ in range(rng.choice([0, 1, 2, 3, 5, 9])):
+            x = rng.randrange(n) if n and rng.random() < 0.93 else n + rng.choice([0, 1, 7])
+            k = rng.choice("SCFFVI")
+            ops.append([k, str(x)] + ([rng.choice("TF")] if k in "VI" else []))
+        x = rng.randrange(n) if n and rng.random() < 0.9 else n + rng.choice([0, 3])
+        P.add(["val_hist", start, ["L"] + ops, str(x)])
     for a in pool:
         P.add(["exact_card", bdd_sx(a)])
     for a in pool:
@@ -293,9 +306,30 @@ def cmp3(x, y):
     return "LT" if x < y else "GT" if x > y else "EQ"
 
 
+def sim_val_hist(call):
+    """BddValuation histories: all_false/all_true/new, then set/clear/flip_value/set_value/IndexMut; an index beyond the
+    vector panics; the value read back at x (PANIC beyond the vector) and num_vars (`len as u16`)"""
+    st = call[1]
+    if st[0] == "AF":
+        v = [False] * int(st[1])
+    elif st[0] == "AT":
+        v = [True] * int(st[1])
+    else:
+        v = [ch == "1" for ch in st[1][1:]]
+    for o in call[2][1:]:
+        x = int(o[1])
+        if x >= len(v):
+            return "PANIC"
+        v[x] = {"S": True, "C": False, "F": not v[x]}[o[0]] if o[0] in "SCF" else (o[2] == "T")
+    x = int(call[3])
+    return ["P", "v" + "".join("1" if c else "0" for c in v), B(v[x]) if x < len(v) else "PANIC", str(len(v) % 65536)]
+
+
 def expected(call):
     """the value the property demands, computed on finite maps / raw arrays; None = no complete oracle (compare with the model only)"""
     op = call[0]
+    if op == "val_hist":
+        return sim_val_hist(call)
     if op in ("pv_eq", "pv_ne"):
         e = fmap(call[1]) == fmap(call[2])
         return B(e if op == "pv_eq" else not e)
